@@ -20,20 +20,28 @@ class MinMaxValue(GenericValue):
         if self._old_value is undefined:
             state().missing_values += 1
 
+        if self._old_value is not undefined:
+            # the result is always judged against the value in the source.
+            # This is done first, because nothing should be recorded if the comparison raises an exception
+            result = self.cmp(self._old_value, other)
+
         if self._new_value is undefined or not self.cmp(self._new_value, other):
             self._new_value = clone(other)
 
         if self._old_value is undefined:
             return True
 
-        # the result is always judged against the value in the source,
         # _return() lets the test continue if the snapshot gets changed
-        return self._return(self.cmp(self._old_value, other))
+        return self._return(result)
 
     def _new_code(self):
         return self._file._value_to_code(self._new_value)
 
     def _get_changes(self) -> Iterator[Change]:
+        if self._new_value is undefined:
+            # the comparison raised an exception
+            return
+
         new_token = value_to_token(self._new_value)
         if not self.cmp(self._old_value, self._new_value):
             flag = "fix"
